@@ -1,7 +1,1156 @@
-//! C34 — not built yet.
-use vcore::Ctx;
+//! C34 — the GraphiQL page embeds its configuration verbatim and safely.
+//!
+//! The oracle reads the page the way a browser does: an HTML tokenizer (newline normalisation, tags with
+//! attributes, comments, RCDATA for <title>, RAWTEXT for <style>, the script-data states including the
+//! `<!--` / `<script` escape states) yields the title (character references decoded) and the raw text of each
+//! script element; the module script's `createGraphiQLFetcher({...})` argument is then parsed as a JavaScript
+//! object literal (string literals evaluated with the ECMAScript rules for module code) and interpreted.
+//! Everything outside the configured strings must be identical to a rendering of the same shape with plain
+//! alphanumeric values.
+use async_graphql::http::GraphiQLSource;
+use std::collections::BTreeMap;
+use vcore::gens::*;
+use vcore::{json, Case, Ctx, Src};
 
-pub fn run(_ctx: &mut Ctx) {
-    eprintln!("C34: check not built yet");
-    std::process::exit(2);
+const F1: &str = "C34-F1";
+const F2: &str = "C34-F2";
+const F3: &str = "C34-F3";
+
+// =========================================================================================================
+// configuration
+// =========================================================================================================
+
+#[derive(Clone, Debug, PartialEq)]
+struct Cfg {
+    endpoint: String,
+    sub: Option<String>,
+    title: Option<String>,
+    headers: Vec<(String, String)>,
+    ws: Vec<(String, String)>,
+}
+impl Cfg {
+    fn render(&self) -> String {
+        let mut b = GraphiQLSource::build().endpoint(&self.endpoint);
+        if let Some(s) = &self.sub {
+            b = b.subscription_endpoint(s);
+        }
+        if let Some(t) = &self.title {
+            b = b.title(t);
+        }
+        for (k, v) in &self.headers {
+            b = b.header(k, v);
+        }
+        for (k, v) in &self.ws {
+            b = b.ws_connection_param(k, v);
+        }
+        b.finish()
+    }
+    /// every string that is embedded in the script
+    fn script_strings(&self) -> Vec<&str> {
+        let mut v = vec![self.endpoint.as_str()];
+        v.extend(self.sub.as_deref());
+        for (k, x) in self.headers.iter().chain(self.ws.iter()) {
+            v.push(k);
+            v.push(x);
+        }
+        v
+    }
+    /// same shape, every string replaced by a unique alphanumeric placeholder
+    fn placeholders(&self) -> Cfg {
+        Cfg {
+            endpoint: "VPLHxENDPOINTx".into(),
+            sub: self.sub.as_ref().map(|_| "VPLHxSUBx".to_string()),
+            title: self.title.as_ref().map(|_| "VPLHxTITLEx".to_string()),
+            headers: (0..self.headers.len()).map(|i| (format!("VPLHxHK{}x", i), format!("VPLHxHV{}x", i))).collect(),
+            ws: (0..self.ws.len()).map(|i| (format!("VPLHxWK{}x", i), format!("VPLHxWV{}x", i))).collect(),
+        }
+    }
+    /// what a browser must end up with
+    fn expected(&self) -> Eval {
+        let m = |v: &Vec<(String, String)>| if v.is_empty() { None } else { Some(v.iter().map(|(k, x)| (u16s(k), u16s(x))).collect::<BTreeMap<_, _>>()) };
+        Eval {
+            title: html_input_normalise(self.title.as_deref().unwrap_or("GraphiQL")),
+            url: u16s(&self.endpoint),
+            sub: self.sub.as_deref().map(u16s),
+            headers: m(&self.headers),
+            ws: m(&self.ws),
+        }
+    }
+}
+
+fn u16s(s: &str) -> Vec<u16> {
+    s.encode_utf16().collect()
+}
+fn show16(v: &[u16]) -> String {
+    format!("{:?}", String::from_utf16_lossy(v))
+}
+
+/// Result of reading the page.
+#[derive(Clone, Debug, PartialEq)]
+struct Eval {
+    title: String,
+    url: Vec<u16>,
+    sub: Option<Vec<u16>>,
+    headers: Option<BTreeMap<Vec<u16>, Vec<u16>>>,
+    ws: Option<BTreeMap<Vec<u16>, Vec<u16>>>,
+}
+impl Eval {
+    fn show(&self) -> String {
+        let m = |m: &Option<BTreeMap<Vec<u16>, Vec<u16>>>| match m {
+            None => "absent".to_string(),
+            Some(m) => format!("{{{}}}", m.iter().map(|(k, v)| format!("{}: {}", show16(k), show16(v))).collect::<Vec<_>>().join(", ")),
+        };
+        format!(
+            "title={:?} url={} subscriptionUrl={} headers={} wsConnectionParams={}",
+            self.title,
+            show16(&self.url),
+            self.sub.as_ref().map(|s| show16(s)).unwrap_or("absent".into()),
+            m(&self.headers),
+            m(&self.ws)
+        )
+    }
+}
+
+// =========================================================================================================
+// HTML
+// =========================================================================================================
+
+/// HTML input-stream preprocessing that no markup can undo for literal text: CR LF and CR become LF.
+/// (NUL becomes U+FFFD in the text states.) Applied to the page and — for the title, where the statement
+/// makes no demand about these two characters — to the expected title as well.
+fn html_input_normalise(s: &str) -> String {
+    s.replace("\r\n", "\n").replace('\r', "\n").replace('\0', "\u{fffd}")
+}
+
+#[derive(Clone, Debug, PartialEq)]
+enum Tok {
+    Doctype(String),
+    Comment(String),
+    Start(String, Vec<(String, String)>),
+    End(String),
+    Text(String),
+    /// content of a <title> (decoded), a RAWTEXT element, or a script element (raw)
+    TitleText,
+    RawText(String),
+    Script(usize),
+}
+
+struct Page {
+    /// token sequence with title / script contents taken out
+    skeleton: Vec<Tok>,
+    titles: Vec<String>,
+    /// (attributes of the start tag, raw content)
+    scripts: Vec<(Vec<(String, String)>, String)>,
+}
+
+fn is_html_ws(c: char) -> bool {
+    matches!(c, '\t' | '\n' | '\u{c}' | '\r' | ' ')
+}
+
+/// does `rest` start with `</name` followed by whitespace, `/` or `>` (ASCII case-insensitive)?
+fn at_end_tag(rest: &[char], name: &str) -> bool {
+    let n = name.len();
+    rest.len() > 2 + n
+        && rest[0] == '<'
+        && rest[1] == '/'
+        && rest[2..2 + n].iter().zip(name.chars()).all(|(a, b)| a.to_ascii_lowercase() == b)
+        && (is_html_ws(rest[2 + n]) || rest[2 + n] == '/' || rest[2 + n] == '>')
+}
+fn at_start_tag(rest: &[char], name: &str) -> bool {
+    let n = name.len();
+    rest.len() > 1 + n
+        && rest[0] == '<'
+        && rest[1..1 + n].iter().zip(name.chars()).all(|(a, b)| a.to_ascii_lowercase() == b)
+        && (is_html_ws(rest[1 + n]) || rest[1 + n] == '/' || rest[1 + n] == '>')
+}
+
+/// parse a tag starting at `i` (pointing at the first character of the name); returns (name, attrs, index after `>`)
+fn parse_tag(cs: &[char], mut i: usize) -> Result<(String, Vec<(String, String)>, usize), String> {
+    let mut name = String::new();
+    while i < cs.len() && !is_html_ws(cs[i]) && cs[i] != '/' && cs[i] != '>' {
+        name.push(cs[i].to_ascii_lowercase());
+        i += 1;
+    }
+    let mut attrs = vec![];
+    loop {
+        while i < cs.len() && (is_html_ws(cs[i]) || cs[i] == '/') {
+            i += 1;
+        }
+        if i >= cs.len() {
+            return Err(format!("end of input inside tag <{}", name));
+        }
+        if cs[i] == '>' {
+            return Ok((name, attrs, i + 1));
+        }
+        let mut an = String::new();
+        // a leading '=' is part of the attribute name (parse error in the specification, same token boundaries)
+        if cs[i] == '=' {
+            an.push('=');
+            i += 1;
+        }
+        while i < cs.len() && !is_html_ws(cs[i]) && cs[i] != '/' && cs[i] != '>' && cs[i] != '=' {
+            an.push(cs[i].to_ascii_lowercase());
+            i += 1;
+        }
+        while i < cs.len() && is_html_ws(cs[i]) {
+            i += 1;
+        }
+        let mut av = String::new();
+        if i < cs.len() && cs[i] == '=' {
+            i += 1;
+            while i < cs.len() && is_html_ws(cs[i]) {
+                i += 1;
+            }
+            if i < cs.len() && (cs[i] == '"' || cs[i] == '\'') {
+                let q = cs[i];
+                i += 1;
+                while i < cs.len() && cs[i] != q {
+                    av.push(cs[i]);
+                    i += 1;
+                }
+                if i >= cs.len() {
+                    return Err(format!("end of input inside attribute value of <{}", name));
+                }
+                i += 1;
+            } else {
+                while i < cs.len() && !is_html_ws(cs[i]) && cs[i] != '>' {
+                    av.push(cs[i]);
+                    i += 1;
+                }
+            }
+        }
+        attrs.push((an, av));
+    }
+}
+
+/// text of an RCDATA / RAWTEXT element starting at `i`; returns (raw text, index after the end tag)
+fn raw_until_end_tag(cs: &[char], i: usize, name: &str) -> Result<(String, usize), String> {
+    let mut j = i;
+    while j < cs.len() {
+        if at_end_tag(&cs[j..], name) {
+            let (_, _, after) = parse_tag(cs, j + 2)?;
+            let text: String = cs[i..j].iter().map(|c| if *c == '\0' { '\u{fffd}' } else { *c }).collect();
+            return Ok((text, after));
+        }
+        j += 1;
+    }
+    Err(format!("<{}> element is never closed", name))
+}
+
+/// script data, script data escaped and script data double escaped states
+fn script_until_end_tag(cs: &[char], i: usize) -> Result<(String, usize), String> {
+    #[derive(PartialEq)]
+    enum S {
+        Data,
+        Escaped,
+        DoubleEscaped,
+    }
+    let mut st = S::Data;
+    let mut dashes = 0usize;
+    let mut j = i;
+    while j < cs.len() {
+        let rest = &cs[j..];
+        match st {
+            S::Data => {
+                if rest.len() >= 4 && rest[0] == '<' && rest[1] == '!' && rest[2] == '-' && rest[3] == '-' {
+                    st = S::Escaped;
+                    dashes = 2;
+                    j += 4;
+                    continue;
+                }
+                if at_end_tag(rest, "script") {
+                    break;
+                }
+                j += 1;
+            }
+            S::Escaped | S::DoubleEscaped => match rest[0] {
+                '-' => {
+                    dashes += 1;
+                    j += 1;
+                }
+                '>' if dashes >= 2 => {
+                    st = S::Data;
+                    dashes = 0;
+                    j += 1;
+                }
+                '<' => {
+                    dashes = 0;
+                    if st == S::Escaped {
+                        if at_end_tag(rest, "script") {
+                            break;
+                        }
+                        if at_start_tag(rest, "script") {
+                            st = S::DoubleEscaped;
+                            j += 7;
+                            continue;
+                        }
+                    } else if at_end_tag(rest, "script") {
+                        st = S::Escaped;
+                        j += 8;
+                        continue;
+                    }
+                    j += 1;
+                }
+                _ => {
+                    dashes = 0;
+                    j += 1;
+                }
+            },
+        }
+    }
+    if j >= cs.len() {
+        return Err("script element is never closed (the rest of the page is script text)".into());
+    }
+    let (_, _, after) = parse_tag(cs, j + 2)?;
+    let text: String = cs[i..j].iter().map(|c| if *c == '\0' { '\u{fffd}' } else { *c }).collect();
+    Ok((text, after))
+}
+
+/// windows-1252 remapping of numeric character references 0x80..0x9F
+const C1_MAP: [u32; 32] = [
+    0x20AC, 0x81, 0x201A, 0x0192, 0x201E, 0x2026, 0x2020, 0x2021, 0x02C6, 0x2030, 0x0160, 0x2039, 0x0152, 0x8D, 0x017D, 0x8F, 0x90, 0x2018, 0x2019, 0x201C,
+    0x201D, 0x2022, 0x2013, 0x2014, 0x02DC, 0x2122, 0x0161, 0x203A, 0x0153, 0x9D, 0x017E, 0x0178,
+];
+
+/// character references in RCDATA text
+fn decode_char_refs(s: &str) -> Result<String, String> {
+    let cs: Vec<char> = s.chars().collect();
+    let mut out = String::new();
+    let mut i = 0;
+    while i < cs.len() {
+        if cs[i] != '&' {
+            out.push(cs[i]);
+            i += 1;
+            continue;
+        }
+        let rest = &cs[i + 1..];
+        if rest.first() == Some(&'#') {
+            let hex = matches!(rest.get(1), Some('x') | Some('X'));
+            let start = if hex { 2 } else { 1 };
+            let mut j = start;
+            let mut val: u32 = 0;
+            while j < rest.len() && (if hex { rest[j].is_ascii_hexdigit() } else { rest[j].is_ascii_digit() }) {
+                val = val.saturating_mul(if hex { 16 } else { 10 }).saturating_add(rest[j].to_digit(16).unwrap());
+                j += 1;
+            }
+            if j == start {
+                out.push('&');
+                i += 1;
+                continue;
+            }
+            if rest.get(j) == Some(&';') {
+                j += 1;
+            }
+            let cp = match val {
+                0 => 0xfffd,
+                v if v > 0x10ffff => 0xfffd,
+                v if (0xd800..=0xdfff).contains(&v) => 0xfffd,
+                v if (0x80..=0x9f).contains(&v) => C1_MAP[(v - 0x80) as usize],
+                v => v,
+            };
+            out.push(char::from_u32(cp).unwrap_or('\u{fffd}'));
+            i += 1 + j;
+            continue;
+        }
+        if rest.first().map_or(false, |c| c.is_ascii_alphanumeric()) {
+            let name: String = rest.iter().take_while(|c| c.is_ascii_alphanumeric()).collect();
+            let semi = rest.get(name.len()) == Some(&';');
+            // the five XML names (with ';') and their legacy forms that also work without ';' (longest-prefix match)
+            let legacy = [("amp", '&'), ("lt", '<'), ("gt", '>'), ("quot", '"'), ("AMP", '&'), ("LT", '<'), ("GT", '>'), ("QUOT", '"')];
+            if semi && name == "apos" {
+                out.push('\'');
+                i += 1 + name.len() + 1;
+                continue;
+            }
+            if let Some((n, c)) = legacy.iter().find(|(n, _)| name == *n) {
+                out.push(*c);
+                i += 1 + n.len() + if semi { 1 } else { 0 };
+                continue;
+            }
+            return Err(format!(
+                "raw '&' followed by {:?} in the title: its meaning depends on the named character reference table (not modelled); a configured '&' must be escaped",
+                name
+            ));
+        }
+        out.push('&');
+        i += 1;
+    }
+    Ok(out)
+}
+
+fn tokenize_html(page: &str) -> Result<Page, String> {
+    let norm = page.replace("\r\n", "\n").replace('\r', "\n");
+    let cs: Vec<char> = norm.chars().collect();
+    let mut p = Page { skeleton: vec![], titles: vec![], scripts: vec![] };
+    let mut text = String::new();
+    let mut i = 0;
+    macro_rules! flush {
+        () => {
+            if !text.trim().is_empty() {
+                p.skeleton.push(Tok::Text(std::mem::take(&mut text)));
+            } else {
+                text.clear();
+            }
+        };
+    }
+    while i < cs.len() {
+        if cs[i] != '<' {
+            text.push(cs[i]);
+            i += 1;
+            continue;
+        }
+        let rest = &cs[i..];
+        if rest.len() >= 4 && rest[1] == '!' && rest[2] == '-' && rest[3] == '-' {
+            flush!();
+            let mut j = i + 4;
+            let body_start = j;
+            // "<!-->" and "<!--->" are complete (empty) comments
+            if j < cs.len() && cs[j] == '>' {
+                p.skeleton.push(Tok::Comment(String::new()));
+                i = j + 1;
+                continue;
+            }
+            if j + 1 < cs.len() && cs[j] == '-' && cs[j + 1] == '>' {
+                p.skeleton.push(Tok::Comment(String::new()));
+                i = j + 2;
+                continue;
+            }
+            let mut end = None;
+            while j < cs.len() {
+                if cs[j] == '-' && j + 2 < cs.len() && cs[j + 1] == '-' && cs[j + 2] == '>' {
+                    end = Some((j, j + 3));
+                    break;
+                }
+                if cs[j] == '-' && j + 3 < cs.len() && cs[j + 1] == '-' && cs[j + 2] == '!' && cs[j + 3] == '>' {
+                    end = Some((j, j + 4));
+                    break;
+                }
+                j += 1;
+            }
+            let (e, after) = end.unwrap_or((cs.len(), cs.len()));
+            p.skeleton.push(Tok::Comment(cs[body_start..e].iter().collect()));
+            i = after;
+            continue;
+        }
+        if rest.len() >= 2 && (rest[1] == '!' || rest[1] == '?') {
+            flush!();
+            let mut j = i + 2;
+            while j < cs.len() && cs[j] != '>' {
+                j += 1;
+            }
+            p.skeleton.push(Tok::Doctype(cs[i + 1..j.min(cs.len())].iter().collect()));
+            i = j + 1;
+            continue;
+        }
+        if rest.len() >= 3 && rest[1] == '/' && rest[2].is_ascii_alphabetic() {
+            flush!();
+            let (name, _, after) = parse_tag(&cs, i + 2)?;
+            p.skeleton.push(Tok::End(name));
+            i = after;
+            continue;
+        }
+        if rest.len() >= 2 && rest[1].is_ascii_alphabetic() {
+            flush!();
+            let (name, attrs, after) = parse_tag(&cs, i + 1)?;
+            p.skeleton.push(Tok::Start(name.clone(), attrs.clone()));
+            i = after;
+            match name.as_str() {
+                "title" | "textarea" => {
+                    let (raw, after) = raw_until_end_tag(&cs, i, &name)?;
+                    if name == "title" {
+                        p.titles.push(decode_char_refs(&raw)?);
+                        p.skeleton.push(Tok::TitleText);
+                    } else {
+                        p.skeleton.push(Tok::RawText(raw));
+                    }
+                    p.skeleton.push(Tok::End(name));
+                    i = after;
+                }
+                "style" | "xmp" | "iframe" | "noembed" | "noframes" => {
+                    let (raw, after) = raw_until_end_tag(&cs, i, &name)?;
+                    p.skeleton.push(Tok::RawText(raw));
+                    p.skeleton.push(Tok::End(name));
+                    i = after;
+                }
+                "script" => {
+                    let (raw, after) = script_until_end_tag(&cs, i)?;
+                    p.skeleton.push(Tok::Script(p.scripts.len()));
+                    p.scripts.push((attrs, raw));
+                    p.skeleton.push(Tok::End(name));
+                    i = after;
+                }
+                "plaintext" => return Err("<plaintext> swallows the rest of the page".into()),
+                _ => {}
+            }
+            continue;
+        }
+        text.push('<');
+        i += 1;
+    }
+    flush!();
+    Ok(p)
+}
+
+// =========================================================================================================
+// JavaScript (module code): the subset an object literal of strings, identifiers and calls needs
+// =========================================================================================================
+
+#[derive(Clone, Debug, PartialEq)]
+enum JsTok {
+    P(char),
+    Ident(String),
+    Str(Vec<u16>),
+    Eof,
+}
+#[derive(Clone, Debug, PartialEq)]
+enum Js {
+    Str(Vec<u16>),
+    Ident(String),
+    Call(String, Vec<Js>),
+    Obj(Vec<(Vec<u16>, Js)>),
+}
+
+fn is_js_line_terminator(c: char) -> bool {
+    matches!(c, '\n' | '\r' | '\u{2028}' | '\u{2029}')
+}
+fn is_js_ws(c: char) -> bool {
+    matches!(c, '\t' | '\u{b}' | '\u{c}' | ' ' | '\u{a0}' | '\u{feff}' | '\u{1680}' | '\u{2000}'..='\u{200a}' | '\u{202f}' | '\u{205f}' | '\u{3000}') || is_js_line_terminator(c)
+}
+
+struct JsLex<'a> {
+    cs: &'a [char],
+    i: usize,
+}
+impl<'a> JsLex<'a> {
+    fn err<T>(&self, msg: impl Into<String>) -> Result<T, String> {
+        Err(format!("script offset {}: {}", self.i, msg.into()))
+    }
+    fn skip_trivia(&mut self) -> Result<(), String> {
+        loop {
+            while self.i < self.cs.len() && is_js_ws(self.cs[self.i]) {
+                self.i += 1;
+            }
+            if self.i + 1 < self.cs.len() && self.cs[self.i] == '/' && self.cs[self.i + 1] == '/' {
+                while self.i < self.cs.len() && !is_js_line_terminator(self.cs[self.i]) {
+                    self.i += 1;
+                }
+                continue;
+            }
+            if self.i + 1 < self.cs.len() && self.cs[self.i] == '/' && self.cs[self.i + 1] == '*' {
+                self.i += 2;
+                loop {
+                    if self.i + 1 >= self.cs.len() {
+                        return self.err("unterminated comment");
+                    }
+                    if self.cs[self.i] == '*' && self.cs[self.i + 1] == '/' {
+                        self.i += 2;
+                        break;
+                    }
+                    self.i += 1;
+                }
+                continue;
+            }
+            return Ok(());
+        }
+    }
+    fn hex(&mut self, n: usize) -> Result<u32, String> {
+        let mut v = 0u32;
+        for _ in 0..n {
+            match self.cs.get(self.i).and_then(|c| c.to_digit(16)) {
+                Some(d) => {
+                    v = v * 16 + d;
+                    self.i += 1;
+                }
+                None => return self.err("invalid escape sequence: hexadecimal digit expected"),
+            }
+        }
+        Ok(v)
+    }
+    /// StringLiteral, `self.i` at the opening quote
+    fn string(&mut self) -> Result<Vec<u16>, String> {
+        let q = self.cs[self.i];
+        self.i += 1;
+        let mut out: Vec<u16> = vec![];
+        let mut b = [0u16; 2];
+        loop {
+            let c = match self.cs.get(self.i) {
+                None => return self.err("unterminated string literal (end of script)"),
+                Some(c) => *c,
+            };
+            self.i += 1;
+            if c == q {
+                return Ok(out);
+            }
+            if c == '\n' || c == '\r' {
+                self.i -= 1;
+                return self.err("unterminated string literal (raw line terminator inside the literal)");
+            }
+            if c != '\\' {
+                // U+2028 / U+2029 are allowed unescaped inside string literals (ES2019)
+                out.extend_from_slice(c.encode_utf16(&mut b));
+                continue;
+            }
+            let e = match self.cs.get(self.i) {
+                None => return self.err("unterminated string literal (end of script after backslash)"),
+                Some(e) => *e,
+            };
+            self.i += 1;
+            match e {
+                '\r' => {
+                    if self.cs.get(self.i) == Some(&'\n') {
+                        self.i += 1;
+                    }
+                }
+                '\n' | '\u{2028}' | '\u{2029}' => {}
+                'b' => out.push(8),
+                'f' => out.push(12),
+                'n' => out.push(10),
+                'r' => out.push(13),
+                't' => out.push(9),
+                'v' => out.push(11),
+                '0' if !self.cs.get(self.i).map_or(false, |c| c.is_ascii_digit()) => out.push(0),
+                '0'..='9' => {
+                    self.i -= 1;
+                    return self.err("octal / \\8 \\9 escape sequences are not allowed in module code");
+                }
+                'x' => {
+                    let v = self.hex(2)?;
+                    out.push(v as u16);
+                }
+                'u' => {
+                    if self.cs.get(self.i) == Some(&'{') {
+                        self.i += 1;
+                        let mut v = 0u32;
+                        let mut n = 0;
+                        loop {
+                            match self.cs.get(self.i) {
+                                Some('}') if n > 0 => {
+                                    self.i += 1;
+                                    break;
+                                }
+                                Some(c) if c.is_ascii_hexdigit() => {
+                                    v = v.saturating_mul(16).saturating_add(c.to_digit(16).unwrap());
+                                    n += 1;
+                                    self.i += 1;
+                                }
+                                _ => return self.err("invalid \\u{...} escape sequence"),
+                            }
+                        }
+                        if v > 0x10ffff {
+                            return self.err("\\u{...} escape beyond U+10FFFF");
+                        }
+                        if v >= 0x10000 {
+                            let v = v - 0x10000;
+                            out.push(0xd800 + (v >> 10) as u16);
+                            out.push(0xdc00 + (v & 0x3ff) as u16);
+                        } else {
+                            out.push(v as u16);
+                        }
+                    } else {
+                        let v = self.hex(4)?;
+                        out.push(v as u16);
+                    }
+                }
+                other => out.extend_from_slice(other.encode_utf16(&mut b)),
+            }
+        }
+    }
+    fn next(&mut self) -> Result<JsTok, String> {
+        self.skip_trivia()?;
+        let c = match self.cs.get(self.i) {
+            None => return Ok(JsTok::Eof),
+            Some(c) => *c,
+        };
+        match c {
+            '{' | '}' | '(' | ')' | ',' | ':' | ';' => {
+                self.i += 1;
+                Ok(JsTok::P(c))
+            }
+            '\'' | '"' => Ok(JsTok::Str(self.string()?)),
+            c if c.is_ascii_alphabetic() || c == '_' || c == '$' => {
+                let st = self.i;
+                while self.i < self.cs.len() && (self.cs[self.i].is_ascii_alphanumeric() || self.cs[self.i] == '_' || self.cs[self.i] == '$') {
+                    self.i += 1;
+                }
+                Ok(JsTok::Ident(self.cs[st..self.i].iter().collect()))
+            }
+            other => self.err(format!("unexpected character {:?} (not a token of the configuration object)", other)),
+        }
+    }
+    fn peek(&mut self) -> Result<JsTok, String> {
+        let save = self.i;
+        let t = self.next();
+        self.i = save;
+        t
+    }
+}
+
+struct JsParser<'a> {
+    lx: JsLex<'a>,
+    /// tolerate a missing comma between a nested object literal and the next property (quirk C34-F3)
+    lenient_comma: bool,
+    used_lenient_comma: bool,
+}
+impl<'a> JsParser<'a> {
+    fn expr(&mut self) -> Result<Js, String> {
+        match self.lx.next()? {
+            JsTok::Str(s) => Ok(Js::Str(s)),
+            JsTok::P('{') => self.object_body(),
+            JsTok::Ident(name) => {
+                if self.lx.peek()? == JsTok::P('(') {
+                    self.lx.next()?;
+                    let mut args = vec![];
+                    if self.lx.peek()? == JsTok::P(')') {
+                        self.lx.next()?;
+                        return Ok(Js::Call(name, args));
+                    }
+                    loop {
+                        args.push(self.expr()?);
+                        match self.lx.next()? {
+                            JsTok::P(',') => continue,
+                            JsTok::P(')') => return Ok(Js::Call(name, args)),
+                            t => return self.lx.err(format!("expected ',' or ')' in the arguments of {}(), found {}", name, show_tok(&t))),
+                        }
+                    }
+                }
+                Ok(Js::Ident(name))
+            }
+            t => self.lx.err(format!("expected an expression, found {}", show_tok(&t))),
+        }
+    }
+    /// after `{`
+    fn object_body(&mut self) -> Result<Js, String> {
+        let mut props = vec![];
+        loop {
+            let key = match self.lx.next()? {
+                JsTok::P('}') => return Ok(Js::Obj(props)),
+                JsTok::Str(s) => s,
+                JsTok::Ident(n) => u16s(&n),
+                t => return self.lx.err(format!("expected a property name or '}}', found {}", show_tok(&t))),
+            };
+            match self.lx.next()? {
+                JsTok::P(':') => {}
+                t => return self.lx.err(format!("expected ':' after property name {}, found {}", show16(&key), show_tok(&t))),
+            }
+            let v = self.expr()?;
+            let was_obj = matches!(v, Js::Obj(_));
+            props.push((key, v));
+            match self.lx.peek()? {
+                JsTok::P(',') => {
+                    self.lx.next()?;
+                }
+                JsTok::P('}') => {}
+                JsTok::Ident(_) | JsTok::Str(_) if self.lenient_comma && was_obj => self.used_lenient_comma = true,
+                t => {
+                    self.lx.next()?;
+                    return self.lx.err(format!("expected ',' or '}}' after the value of property {}, found {}", show16(&props.last().unwrap().0), show_tok(&t)));
+                }
+            }
+        }
+    }
+}
+fn show_tok(t: &JsTok) -> String {
+    match t {
+        JsTok::P(c) => format!("'{}'", c),
+        JsTok::Ident(n) => format!("identifier {}", n),
+        JsTok::Str(s) => format!("string {}", show16(s)),
+        JsTok::Eof => "end of script".into(),
+    }
+}
+
+const ANCHOR: &str = "const fetcher = createGraphiQLFetcher(";
+
+struct ScriptParts {
+    head: String,
+    arg: Js,
+    tail: String,
+    used_lenient_comma: bool,
+}
+fn parse_module_script(src: &str, lenient_comma: bool) -> Result<ScriptParts, String> {
+    let at = src.find(ANCHOR).ok_or("the module script does not contain the createGraphiQLFetcher call")?;
+    let head = &src[..at + ANCHOR.len()];
+    let cs: Vec<char> = src[at + ANCHOR.len()..].chars().collect();
+    let mut p = JsParser { lx: JsLex { cs: &cs, i: 0 }, lenient_comma, used_lenient_comma: false };
+    let arg = match p.lx.next()? {
+        JsTok::P('{') => p.object_body()?,
+        t => return p.lx.err(format!("expected the options object, found {}", show_tok(&t))),
+    };
+    match p.lx.next()? {
+        JsTok::P(')') => {}
+        t => return p.lx.err(format!("expected ')' after the options object, found {}", show_tok(&t))),
+    }
+    if p.lx.peek()? == JsTok::P(';') {
+        p.lx.next()?;
+    }
+    let tail: String = cs[p.lx.i..].iter().collect();
+    Ok(ScriptParts { head: head.to_string(), arg, tail, used_lenient_comma: p.used_lenient_comma })
+}
+
+fn interpret_options(arg: &Js) -> Result<(Vec<u16>, Option<Vec<u16>>, Option<BTreeMap<Vec<u16>, Vec<u16>>>, Option<BTreeMap<Vec<u16>, Vec<u16>>>), String> {
+    let props = match arg {
+        Js::Obj(p) => p,
+        _ => return Err("options is not an object".into()),
+    };
+    let url_of = |v: &Js, what: &str| -> Result<Vec<u16>, String> {
+        match v {
+            Js::Call(f, args) if f == "createUrl" => match args.first() {
+                Some(Js::Str(s)) => Ok(s.clone()),
+                _ => Err(format!("{}: first argument of createUrl is not a string literal", what)),
+            },
+            other => Err(format!("{} is {:?}, expected createUrl('...')", what, other)),
+        }
+    };
+    let map_of = |v: &Js, what: &str| -> Result<BTreeMap<Vec<u16>, Vec<u16>>, String> {
+        match v {
+            Js::Obj(ps) => {
+                let mut m = BTreeMap::new();
+                for (k, v) in ps {
+                    match v {
+                        Js::Str(s) => {
+                            m.insert(k.clone(), s.clone()); // a repeated key overwrites, as in JavaScript
+                        }
+                        other => return Err(format!("{}[{}] is {:?}, expected a string literal", what, show16(k), other)),
+                    }
+                }
+                Ok(m)
+            }
+            other => Err(format!("{} is {:?}, expected an object literal", what, other)),
+        }
+    };
+    let (mut url, mut sub, mut headers, mut ws) = (None, None, None, None);
+    for (k, v) in props {
+        match String::from_utf16_lossy(k).as_str() {
+            "url" => url = Some(url_of(v, "url")?),
+            "subscriptionUrl" => sub = Some(url_of(v, "subscriptionUrl")?),
+            "headers" => headers = Some(map_of(v, "headers")?),
+            "wsConnectionParams" => ws = Some(map_of(v, "wsConnectionParams")?),
+            _ => {}
+        }
+    }
+    Ok((url.ok_or("no url property")?, sub, headers, ws))
+}
+
+// =========================================================================================================
+// reading a page
+// =========================================================================================================
+
+struct Read {
+    eval: Eval,
+    skeleton: Vec<Tok>,
+    other_scripts: Vec<(Vec<(String, String)>, String)>,
+    head: String,
+    tail: String,
+    used_lenient_comma: bool,
+}
+
+fn read_page(page: &str, lenient_comma: bool) -> Result<Read, String> {
+    let p = tokenize_html(page)?;
+    if p.titles.len() != 1 {
+        return Err(format!("{} <title> elements", p.titles.len()));
+    }
+    let module: Vec<usize> = (0..p.scripts.len()).filter(|i| p.scripts[*i].0.iter().any(|(k, v)| k == "type" && v == "module")).collect();
+    if module.len() != 1 {
+        return Err(format!("{} module scripts among {} script elements", module.len(), p.scripts.len()));
+    }
+    let parts = parse_module_script(&p.scripts[module[0]].1, lenient_comma)?;
+    let (url, sub, headers, ws) = interpret_options(&parts.arg)?;
+    let other_scripts = p.scripts.iter().enumerate().filter(|(i, _)| *i != module[0]).map(|(_, s)| s.clone()).collect();
+    Ok(Read {
+        eval: Eval { title: p.titles[0].clone(), url, sub, headers, ws },
+        skeleton: p.skeleton,
+        other_scripts,
+        head: parts.head,
+        tail: parts.tail,
+        used_lenient_comma: parts.used_lenient_comma,
+    })
+}
+
+/// The outcome a browser would observe: the evaluated configuration, or why the page / script is broken.
+/// `reference` is the reading of the placeholder rendering of the same shape: everything that is not a
+/// configured string must be identical to it (no configured value may end its string, script or HTML context).
+fn observe(page: &str, reference: &Read, lenient_comma: bool) -> (Result<Eval, String>, bool) {
+    match read_page(page, lenient_comma) {
+        Err(e) => (Err(e), false),
+        Ok(r) => {
+            let res = if r.skeleton != reference.skeleton {
+                let at = r.skeleton.iter().zip(reference.skeleton.iter()).position(|(a, b)| a != b).unwrap_or(r.skeleton.len().min(reference.skeleton.len()));
+                Err(format!("the HTML structure differs from the template's at token {}: {:?}", at, r.skeleton.get(at)))
+            } else if r.other_scripts != reference.other_scripts {
+                Err("a script element other than the module script differs from the template's".to_string())
+            } else if r.head != reference.head {
+                Err("the module script differs from the template before the fetcher options".to_string())
+            } else if r.tail != reference.tail {
+                Err(format!("the module script differs from the template after the fetcher options: {:?}", r.tail.chars().take(80).collect::<String>()))
+            } else {
+                Ok(r.eval)
+            };
+            (res, r.used_lenient_comma)
+        }
+    }
+}
+
+// =========================================================================================================
+// quirk model (known findings)
+// =========================================================================================================
+
+/// How the page with the OPEN findings' deviations looks: the placeholder rendering with each placeholder
+/// replaced by the string as the deviating implementation emits it.
+///  C34-F1: `& ' < > "` are written as decimal character references (`&#38;` ...) although script text is not entity-decoded;
+///  C34-F2: backslash, LF, CR and NUL are written raw into the single-quoted JavaScript literal.
+/// Characters of a finding that is not open are written as a correct JavaScript escape.
+fn model_script_text(v: &str, f1: bool, f2: bool) -> String {
+    let mut out = String::new();
+    for c in v.chars() {
+        match c {
+            '&' | '\'' | '<' | '>' | '"' if f1 => out.push_str(&format!("&#{};", c as u32)),
+            '\\' | '\n' | '\r' | '\0' if f2 => out.push(c),
+            '&' | '\'' | '<' | '>' | '"' | '\\' | '\n' | '\r' | '\0' => out.push_str(&format!("\\u{:04x}", c as u32)),
+            c => out.push(c),
+        }
+    }
+    out
+}
+fn html_escape(v: &str) -> String {
+    let mut out = String::new();
+    for c in v.chars() {
+        match c {
+            '&' | '\'' | '<' | '>' | '"' => out.push_str(&format!("&#{};", c as u32)),
+            c => out.push(c),
+        }
+    }
+    out
+}
+fn model_page(cfg: &Cfg, placeholder_page: &str, f1: bool, f2: bool) -> Result<String, String> {
+    let ph = cfg.placeholders();
+    let mut page = placeholder_page.to_string();
+    let mut sub = |from: &str, to: String| -> Result<(), String> {
+        if page.matches(from).count() != 1 {
+            return Err(format!("placeholder {} occurs {} times in the plain rendering", from, page.matches(from).count()));
+        }
+        page = page.replacen(from, &to, 1);
+        Ok(())
+    };
+    sub(&ph.endpoint, model_script_text(&cfg.endpoint, f1, f2))?;
+    if let (Some(p), Some(v)) = (&ph.sub, &cfg.sub) {
+        sub(p, model_script_text(v, f1, f2))?;
+    }
+    if let (Some(p), Some(v)) = (&ph.title, &cfg.title) {
+        sub(p, html_escape(v))?;
+    }
+    for (p, v) in ph.headers.iter().zip(cfg.headers.iter()).chain(ph.ws.iter().zip(cfg.ws.iter())) {
+        sub(&p.0, model_script_text(&v.0, f1, f2))?;
+        sub(&p.1, model_script_text(&v.1, f1, f2))?;
+    }
+    Ok(page)
+}
+
+const F1_CHARS: [char; 5] = ['&', '\'', '<', '>', '"'];
+const F2_CHARS: [char; 4] = ['\\', '\n', '\r', '\0'];
+
+#[derive(Clone, Copy)]
+struct Open {
+    f1: bool,
+    f2: bool,
+    f3: bool,
+}
+
+fn judge(cfg: &Cfg, open: Open) -> Case {
+    let text = format!("{:?}", cfg);
+    let strings = cfg.script_strings();
+    let has_f1 = strings.iter().any(|s| s.contains(&F1_CHARS[..]));
+    let has_f2 = strings.iter().any(|s| s.contains(&F2_CHARS[..]));
+    let both_maps = !cfg.headers.is_empty() && !cfg.ws.is_empty();
+    let all: Vec<&str> = strings.iter().copied().chain(cfg.title.as_deref()).collect();
+    let case = |c: Case| {
+        c.nontrivial(all.iter().any(|s| s.chars().any(|c| !(c.is_ascii_alphanumeric() || "/._:-".contains(c)))))
+            .class_if(has_f1, "script-string:quote/amp/angle")
+            .class_if(has_f2, "script-string:backslash/LF/CR/NUL")
+            .class_if(strings.iter().any(|s| s.contains('\u{2028}') || s.contains('\u{2029}')), "script-string:U+2028/9")
+            .class_if(strings.iter().any(|s| !s.is_ascii()), "script-string:non-ascii")
+            .class_if(all.iter().any(|s| s.to_ascii_lowercase().contains("</script") || s.contains("<!--")), "script-closer")
+            .class_if(cfg.title.as_deref().map_or(false, |t| t.contains(&F1_CHARS[..])), "title:markup")
+            .class_if(both_maps, "headers+ws-params")
+            .class_if(cfg.headers.len() + cfg.ws.len() >= 2, "several-map-entries")
+            .class_if(cfg.sub.is_some(), "subscription-endpoint")
+    };
+
+    let placeholder_page = cfg.placeholders().render();
+    // the reference reading tolerates the template's own missing comma only while that finding is open
+    let reference = match read_page(&placeholder_page, open.f3 && both_maps) {
+        Ok(r) => r,
+        Err(e) => return case(Case::fail(text, format!("the page with plain alphanumeric values cannot be read: {}", e))),
+    };
+    let page = cfg.render();
+    let want = cfg.expected();
+    let (strict, _) = observe(&page, &reference, false);
+    if strict.as_ref() == Ok(&want) {
+        return case(Case::pass(text));
+    }
+    let describe = |r: &Result<Eval, String>| match r {
+        Ok(e) => format!("evaluates to {}", e.show()),
+        Err(e) => format!("is broken: {}", e),
+    };
+    let mut why = format!("the page {}; configured: {}", describe(&strict), want.show());
+
+    // known findings: the page must read exactly as the quirk model of the OPEN findings predicts
+    let a1 = open.f1 && has_f1;
+    let a2 = open.f2 && has_f2;
+    let f3_possible = open.f3 && both_maps;
+    // C34-F3 is present iff the reading only gets past the headers object by tolerating the missing comma
+    let (lenient, used) = if f3_possible { observe(&page, &reference, true) } else { (strict.clone(), false) };
+    let a3 = f3_possible && used;
+    let mut ids: Vec<String> = vec![];
+    for (applies, id) in [(a1, F1), (a2, F2), (a3, F3)] {
+        if applies {
+            ids.push(id.to_string());
+        }
+    }
+    if !a1 && !a2 {
+        if a3 && lenient.as_ref() == Ok(&want) {
+            return case(Case::known(text, ids));
+        }
+    } else {
+        match model_page(cfg, &placeholder_page, open.f1, open.f2) {
+            Ok(model) => {
+                let (pred, _) = observe(&model, &reference, false);
+                let mut explained = strict == pred;
+                if f3_possible {
+                    explained &= observe(&model, &reference, true) == (lenient, used);
+                }
+                if explained {
+                    return case(Case::known(text, ids));
+                }
+                why.push_str(&format!("; the known-finding model predicts that the page {}", describe(&pred)));
+            }
+            Err(e) => why.push_str(&format!("; quirk model unavailable: {}", e)),
+        }
+    }
+    case(Case::fail(text, why))
+}
+
+// =========================================================================================================
+// generators
+// =========================================================================================================
+
+const PLAIN: &[&str] = &["/", "graphql", "/ws", "http://localhost:8000/", "api", "Authorization", "Bearer ", "token", "x-api-key", "v1", "?a=1", "%20", "#frag"];
+const MARKUP: &[&str] = &[
+    "'", "\"", "&", "<", ">", "</script>", "</SCRIPT >", "</script", "<!--", "-->", "<script>", "<!--<script>", "&amp;", "&#39;", "&lt;", "&quot", "</title>", "<b>", "');alert(1);('",
+    "'+alert(1)+'", "&b=2", "a&lt",
+];
+const ESCAPES: &[&str] = &["\\", "\n", "\r", "\r\n", "\0", "\\'", "\\n", "\\x41", "\\u0041", "\\u{1F600}", "\\\\", "\\u", "\\x4", "\\0", "\\07", "\\\n"];
+const OTHER: &[&str] = &[
+    "\u{2028}", "\u{2029}", "é", "中", "😀", "\u{feff}", "\u{a0}", "${x}", "`", "//", "/*", "*/", "\t", "\u{b}", "\u{7f}", "\u{85}", ";", ",", ":", "{", "}", "(", ")", "-", "--", "--!", "!",
+    " ", "=", "[token]", "\u{ffff}", "\u{10ffff}", "\u{1}",
+];
+
+fn gen_text(s: &mut dyn Src, f1: bool, f2: bool, max: usize) -> String {
+    let n = 1 + s.choose(max);
+    let mut out = String::new();
+    for _ in 0..n {
+        match s.weighted(&[4, if f1 { 4 } else { 0 }, if f2 { 4 } else { 0 }, 4, 2]) {
+            0 => out.push_str(*pick(s, PLAIN)),
+            1 => out.push_str(*pick(s, MARKUP)),
+            // escape fragments keep their quote only where the characters of C34-F1 are allowed
+            2 => out.extend(pick(s, ESCAPES).chars().filter(|c| f1 || !F1_CHARS.contains(c))),
+            3 => out.push_str(*pick(s, OTHER)),
+            _ => {
+                let c = gen_char(s);
+                // excluded characters are replaced, not rejected
+                if (!f1 && F1_CHARS.contains(&c)) || (!f2 && F2_CHARS.contains(&c)) {
+                    out.push('x');
+                } else {
+                    out.push(c);
+                }
+            }
+        }
+    }
+    out
+}
+
+fn gen_map(s: &mut dyn Src, n: usize, f1: bool, f2: bool) -> Vec<(String, String)> {
+    let mut m: Vec<(String, String)> = vec![];
+    for i in 0..n {
+        let mut k = gen_text(s, f1, f2, 2);
+        // `__proto__` is not an own property in a JavaScript object literal; keys are distinct
+        if k == "__proto__" || m.iter().any(|(k2, _)| *k2 == k) {
+            k.push_str(&format!("{}", i));
+        }
+        m.push((k, gen_text(s, f1, f2, 3)));
+    }
+    m
+}
+
+/// `f1` / `f2`: may script strings contain the characters of C34-F1 / C34-F2; `both`: may headers and
+/// connection parameters be configured together; `entries`: maximum entries per map
+fn gen_cfg(s: &mut dyn Src, f1: bool, f2: bool, both: bool, entries: usize) -> Cfg {
+    let endpoint = gen_text(s, f1, f2, 3);
+    let sub = if s.bool() { Some(gen_text(s, f1, f2, 3)) } else { None };
+    // the title is HTML text: every character class, whatever is open for script strings
+    let title = if s.chance(2, 3) { Some(gen_text(s, true, true, 3)) } else { None };
+    let (nh, nw) = match s.choose(4) {
+        0 => (0, 0),
+        1 => (1 + s.choose(entries), 0),
+        2 => (0, 1 + s.choose(entries)),
+        _ if both => (1 + s.choose(entries), 1 + s.choose(entries)),
+        _ => (1 + s.choose(entries), 0),
+    };
+    Cfg { endpoint, sub, title, headers: gen_map(s, nh, f1, f2), ws: gen_map(s, nw, f1, f2) }
+}
+
+pub fn run(ctx: &mut Ctx) {
+    ctx.rule = "configurations (endpoint, optional subscription endpoint, optional title, 0-3 headers, 0-3 connection parameters) whose strings are sequences of \
+                plain URL/header fragments, markup fragments (quotes, &, <, >, </script, <!--, character references), escape fragments (backslash sequences, LF, CR, NUL), \
+                U+2028/U+2029, non-ASCII and random characters; non-trivial = some configured string contains a character outside [A-Za-z0-9/._:-]; distinct by configuration"
+        .into();
+    ctx.assume("the page is read as a browser reads it: HTML newline normalisation, RCDATA title with character references, script text raw up to the first appropriate </script end tag (escape / double-escape states modelled), string literals by the ECMAScript rules for module code (U+2028/U+2029 raw inside a literal are legal, LF/CR are not)");
+    ctx.assume("configuration is expected as string literals inside the object literal passed to createGraphiQLFetcher (keys url, subscriptionUrl, headers, wsConnectionParams; createUrl('...') around URLs), the template's own design; unknown extra properties are ignored");
+    ctx.assume("title: CR / CR LF are compared after HTML newline normalisation and NUL as U+FFFD (the statement demands nothing about how a title carries them); a raw '&' followed by a letter in the title is reported as a failure because the named-reference table is not modelled (the escaper never emits it)");
+    ctx.assume("header / parameter names are distinct and not `__proto__` (which a JavaScript object literal does not store as a property); version and credentials keep their defaults");
+    let open = Open { f1: ctx.open(F1), f2: ctx.open(F2), f3: ctx.open(F3) };
+    let n = ctx.tier.pick(80_000u32, 3_000_000);
+
+    // regression witnesses of the findings and plain baselines
+    let witnesses: Vec<(&str, Cfg)> = vec![
+        ("plain", Cfg { endpoint: "/".into(), sub: Some("/ws".into()), title: Some("T".into()), headers: vec![("Authorization".into(), "Bearer x".into())], ws: vec![] }),
+        ("C34-F1 apostrophe in endpoint", Cfg { endpoint: "/o'brien".into(), sub: None, title: None, headers: vec![], ws: vec![] }),
+        ("C34-F1 ampersand in endpoint", Cfg { endpoint: "/graphql?a=1&b=2".into(), sub: None, title: None, headers: vec![], ws: vec![] }),
+        ("C34-F2 backslash in header value", Cfg { endpoint: "/".into(), sub: None, title: None, headers: vec![("X-Path".into(), "C:\\new".into())], ws: vec![] }),
+        ("C34-F2 trailing backslash", Cfg { endpoint: "/a\\".into(), sub: None, title: None, headers: vec![], ws: vec![] }),
+        ("C34-F2 line feed", Cfg { endpoint: "/".into(), sub: Some("/ws\n".into()), title: None, headers: vec![], ws: vec![] }),
+        ("C34-F3 headers and connection parameters", Cfg { endpoint: "/".into(), sub: None, title: None, headers: vec![("a".into(), "b".into())], ws: vec![("c".into(), "d".into())] }),
+        ("title with markup", Cfg { endpoint: "/".into(), sub: None, title: Some("</title><script>alert(1)</script>&amp;'\"".into()), headers: vec![], ws: vec![] }),
+    ];
+    for (name, cfg) in &witnesses {
+        let c = judge(cfg, open).class("witness");
+        if ctx.check_case("witness", c, json!({"witness": name})) {
+            return;
+        }
+    }
+
+    // main search: the constructs of open findings are excluded by construction
+    ctx.stream("main", n, 96, |s| judge(&gen_cfg(s, !open.f1, !open.f2, !open.f3, 3), open).class("main"));
+    for (f, o) in [(F1, open.f1), (F2, open.f2), (F3, open.f3)] {
+        if o {
+            ctx.excluded(f);
+        }
+    }
+    if ctx.violations() > 0 {
+        return;
+    }
+    // probes: one finding's construct enabled at a time (at most one entry per map, so that the reading of a
+    // broken page does not depend on HashMap iteration order), then all together
+    ctx.stream("probe-markup", n / 4, 64, |s| judge(&gen_cfg(s, true, !open.f2, !open.f3, 1), open).class("probe"));
+    ctx.stream("probe-escapes", n / 4, 64, |s| judge(&gen_cfg(s, !open.f1, true, !open.f3, 1), open).class("probe"));
+    ctx.stream("probe-both-maps", n / 8, 64, |s| judge(&gen_cfg(s, !open.f1, !open.f2, true, 1), open).class("probe"));
+    ctx.stream("probe-all", n / 4, 64, |s| judge(&gen_cfg(s, true, true, true, 1), open).class("probe"));
+
+    ctx.floor("script-string:U+2028/9", 1_000);
+    ctx.floor("script-string:non-ascii", 5_000);
+    ctx.floor("script-string:quote/amp/angle", 5_000);
+    ctx.floor("script-string:backslash/LF/CR/NUL", 5_000);
+    ctx.floor("script-closer", 1_000);
+    ctx.floor("title:markup", 3_000);
+    ctx.floor("headers+ws-params", 2_000);
+    ctx.floor("several-map-entries", 3_000);
+    ctx.floor("subscription-endpoint", 5_000);
 }
